@@ -44,3 +44,19 @@ PROPS["C17"] = dict(
     assumptions=["block times are whole seconds (datetime modelled as POSIX timestamp)"],
     bounded=[],
 )
+
+PROPS["C01"] = dict(
+    level="proof",
+    modules=["contracts.c_number_theory"],
+    not_decided=[],
+    assumptions=["p and n prime where a contract says so (the constructor's Fermat base-2 test is weaker)"],
+    bounded=[],
+)
+
+PROPS["C02"] = dict(
+    level="proof",
+    modules=["contracts.c_dsa_der"],
+    not_decided=[],
+    assumptions=["HMAC/SHA are functions (uninterpreted)"],
+    bounded=[],
+)
